@@ -21,7 +21,9 @@ RULE = (
     "subset) gives the same outcome (same error class or equal normalised trees). (b) Hypothesis: arbitrary text over the "
     "notation alphabet plus other characters, S1-printed valid descriptions with token-level mutations and deep nesting, same "
     "oracles. (c) accepted strings are run through public operations of every family with tensors of matching rank: any "
-    "SyntaxError must quote the caller's string. Non-trivial: a string that parses or fails after the lexer; distinct by string."
+    "SyntaxError must quote the caller's string. (d) thorough tier: 6 coverage-guided campaigns (atheris/libFuzzer, einx's stage1 "
+    "parser instrumented; bytes decoded token-wise into strings; empty corpus and a corpus of valid descriptions from the repository's tests; 120,000 executions each) with the "
+    "oracles of (a) inside the target; findings are bucketed and the campaign continues. Non-trivial: a string that parses or fails after the lexer; distinct by string."
 )
 ASSUMPTIONS = [
     "redundant spaces are only those the property names: next to an existing space, at either end, directly inside a delimiter, next to '->' ',' '+', never before '...'",
@@ -372,9 +374,68 @@ def worker(k, n, tier, seed, known_buckets, extra):
         if v["bucket"] in known_buckets:
             fr2["excluded"][v["bucket"]] = fr2["excluded"].get(v["bucket"], 0) + 1
     fr2["samples"] = []
-    merged = common.merge_fragments([fr, fr2])
+    frs = [fr, fr2]
+    if tier == "thorough" and k < FUZZ_WORKERS:
+        fr3 = run_fuzz(k, seed, known_buckets)
+        if fr3 is not None:
+            frs.append(fr3)
+    merged = common.merge_fragments(frs)
     merged["nontrivial"] = list(merged["nontrivial"])
     return merged
+
+
+FUZZ_WORKERS = 6
+FUZZ_RUNS = 120000
+
+
+def run_fuzz(k, seed, known_buckets):
+    """(d) coverage-guided campaign (atheris/libFuzzer) in a subprocess; its violations are token-minimised here."""
+    import json
+    import os
+    import shutil
+    import subprocess
+    import sys
+    import tempfile
+
+    d = tempfile.mkdtemp(prefix="einxverif_fuzz_")
+    try:
+        frag = os.path.join(d, "frag.json")
+        runs = int(os.environ.get("VERIF_FUZZ_RUNS", FUZZ_RUNS))
+        mode = "seeded" if k % 2 else "empty"
+        cmd = [sys.executable, "-W", "ignore", "-m", "einxverif.fuzz_parser", frag, str(runs), str(seed * 100 + k + 1), mode, json.dumps(sorted(known_buckets))]
+        subprocess.run(cmd, stdout=subprocess.DEVNULL, stderr=subprocess.DEVNULL, timeout=6 * 3600)
+        if not os.path.exists(frag):
+            return None
+        with open(frag) as f:
+            fr = json.load(f)
+        if fr.get("unavailable"):
+            return None
+        fr["hist"]["fuzz_campaigns_" + mode] = 1
+        for v in fr.get("violations", []):
+            v["case"]["string"] = minimise_string(v["case"]["string"], v["bucket"])
+        return fr
+    except subprocess.TimeoutExpired:
+        return None
+    finally:
+        shutil.rmtree(d, ignore_errors=True)
+
+
+def minimise_string(s, bucket):
+    toks = lex(s)
+    changed = True
+    while changed and len(toks) > 1:
+        changed = False
+        for i in range(len(toks)):
+            t2 = toks[:i] + toks[i + 1 :]
+            try:
+                vs = check_string("".join(t2), common.Stats())
+            except Exception:  # noqa: BLE001
+                vs = []
+            if any(v.bucket == bucket for v in vs):
+                toks = t2
+                changed = True
+                break
+    return "".join(toks)
 
 
 def run(tier, seed, known_buckets):
